@@ -8,6 +8,7 @@
 //          (the operands have no dangling names), and - if both operands were fully correct and the
 //          table equates like with like - every constituent of the result is VERIFIED and keeps its
 //          typification up to the identification.  Also DeleteDuplicates inside one schema.
+//  PART 3: repeated Equate calls on one schema object: each returned translation describes that call only.
 //  PART 2: EntityTranslation algebra (SubstituteValues, SuperposeWith) against a relational reference.
 #include "sym.h"
 #include "ccl/ops/RSOperations.h"
@@ -126,6 +127,39 @@ extern "C" void harness_main() {
     for (const auto u : ia) sym_assert(moved.ContainsKey(u) && (twice.Contains(moved(u)) || removed.ContainsKey(moved(u))), "merge-translation-total");
     for (const auto& [gone, kept] : removed) sym_assert(!twice.Contains(gone) && twice.Contains(kept), "delete-duplicates-maps-removed-to-survivor");
     std::set<std::string> names; for (const auto u : twice.List()) sym_assert(names.insert(twice.GetRS(u).alias).second, "merged-aliases-unique");
+  }
+#ifdef WITNESS
+  sym_assert(false, "witness");
+#endif
+}
+#elif PART == 3
+extern "C" void harness_main() {
+  // ---- repeated equations on ONE schema object (it owns one long-lived equation processor): the translation
+  // returned by each call must describe that call only: keys existed before the call, values exist after it
+  {
+    RSForm t;
+    std::vector<EntityUID> bases;
+    for (int i = 0; i < 3; ++i) bases.push_back(t.Emplace(CstType::base));
+    t.Emplace(CstType::term, "X1\\X1"); t.Emplace(CstType::term, "X2\\X2"); t.Emplace(CstType::term, "X3\\X3");
+    for (int round = 0; round < 2; ++round) {
+      std::vector<EntityUID> live; for (const auto u : t.List()) if (t.GetRS(u).type == CstType::base) live.push_back(u);
+      if (live.size() < 2) break;
+      const int i = pick((int)live.size(), "eq-key"), j = pick((int)live.size(), "eq-value");
+      if (i == j) continue;
+      std::set<EntityUID> before; for (const auto u : t.List()) before.insert(u);
+      const auto tr = t.Ops().Equate(ops::EquationOptions{live[(size_t)i], live[(size_t)j]});
+      if (!tr.has_value()) continue;
+      for (const auto& [key, value] : *tr) {
+        sym_assert(before.count(key) == 1, "equation-translation-keys-are-operands-of-this-call");
+        sym_assert(t.Contains(value), "equation-translation-values-exist-in-result");
+      }
+      const EntityUID ki = live[(size_t)i], kj = live[(size_t)j];
+      const bool goneI = !t.Contains(ki), goneJ = !t.Contains(kj);
+      sym_assert(goneI != goneJ, "equation-removes-exactly-one-of-the-pair");
+      if (goneI != goneJ) { const EntityUID gone = goneI ? ki : kj, kept = goneI ? kj : ki; sym_assert(tr->ContainsKey(gone) && (*tr)(gone) == kept, "removed-member-maps-to-survivor"); }
+      std::set<std::string> names; for (const auto u : t.List()) sym_assert(names.insert(t.GetRS(u).alias).second, "aliases-unique-after-equation");
+      sym_reach("equated-in-place");
+    }
   }
 #ifdef WITNESS
   sym_assert(false, "witness");
